@@ -1,6 +1,9 @@
 // target: src/operator/start/mod.rs
 // Native replay driver for the Start operator (see replay/SPEC.md, second batch): kind `start`.
 //
+// kind `start_crash`: same arguments; the script lacks the Terminate (and possibly more) of a producer that died: after
+// the last scripted batch every sending end of the channel is dropped (see `crash` below). Expected: PANIC.
+//
 // args: [nsenders, adaptive(0/1), nbatches, batch*]
 //       batch = sender_index, sleep_ms_before, nelems, element*      (elements: usual encoding, the
 //       key of Item/Timestamped is ignored, payload u64)
@@ -90,7 +93,7 @@ fn parse_batches(args: &[i128], nsenders: usize, nbatches: usize) -> Result<Vec<
     Ok(out)
 }
 
-fn run(args: &[i128]) -> Result<String, String> {
+fn run(args: &[i128], crash: bool) -> Result<String, String> {
     if args.len() < 3 || args[0] < 0 || args[2] < 0 || !(args[1] == 0 || args[1] == 1) {
         return Err("BADARGS start expects [nsenders, adaptive(0/1), nbatches, batch*]".into());
     }
@@ -137,6 +140,15 @@ fn run(args: &[i128]) -> Result<String, String> {
         };
         start.setup(&mut metadata);
     }
+    if crash {
+        // kind `start_crash`: the topology's own clones of the senders disappear now and the producers' handles when
+        // the script is over (without the missing Terminate): the channel becomes disconnected, as it does when an
+        // upstream worker unwinds after a panic
+        drop(std::mem::replace(
+            &mut topology,
+            NetworkTopology::new(RuntimeConfig::local(1).unwrap()),
+        ));
+    }
 
     // --- leading batches without sleep (at most 16 = capacity of the real channel, so `send` cannot
     // block) are sent before the consumer starts: same order as the helper thread would produce,
@@ -150,6 +162,9 @@ fn run(args: &[i128]) -> Result<String, String> {
     for b in batches.drain(..lead) {
         let (coord, tx) = &senders[b.sender];
         let _ = tx.send(NetworkMessage::new_batch(b.elems, *coord));
+    }
+    if crash && batches.is_empty() {
+        senders.clear();
     }
 
     // --- consumer: the real Start, polled on its own thread so that the watchdog can give up
@@ -233,7 +248,11 @@ fn run(args: &[i128]) -> Result<String, String> {
 #[no_mangle]
 pub fn verif_replay_net_start(name: &str, args: &[i128]) -> Option<String> {
     match name {
-        "start" => Some(match run(args) {
+        "start" => Some(match run(args, false) {
+            Ok(s) => s,
+            Err(e) => e,
+        }),
+        "start_crash" => Some(match run(args, true) {
             Ok(s) => s,
             Err(e) => e,
         }),
